@@ -22,8 +22,9 @@ TOK_PLAIN = r"(?P<SPACE>\s+)|(?P<a>a)|(?P<b>b)|(?P<c>c)|(?P<d>d)|(?P<e>e)"
 # kinds: the word 'zz' becomes white space, a lone tab (white space) becomes the token b
 # ... and a token that takes the rest of its line (=...) is b as well: a str text is split into lines which are right-stripped,
 # so the blanks that end such a line are not part of the token
-TOK_KW = r"(?P<SPACE>\s+)|(?P<COMMENT>\#[^\n]*)|(?P<X1>x)|(?P<X2>y)|(?P<W1>[k-w]+|zz)|\"(?P<Q1>[a-z]*)\"|(?P<R1>=[^\n]*)"
-KW_SYN = {'X1': 'a', 'X2': 'a', 'W1': 'a', 'Q1': 'b', 'R1': 'b'}
+# ... and a context-sensitive pattern: an x that directly follows a word character (\Bx, as in mmx) is b, any other x is a
+TOK_KW = r"(?P<SPACE>\s+)|(?P<COMMENT>\#[^\n]*)|(?P<NB1>\Bx)|(?P<X1>x)|(?P<X2>y)|(?P<W1>[k-w]+|zz)|\"(?P<Q1>[a-z]*)\"|(?P<R1>=[^\n]*)"
+KW_SYN = {'NB1': 'b', 'X1': 'a', 'X2': 'a', 'W1': 'a', 'Q1': 'b', 'R1': 'b'}
 KW_KEY = {('a', 'kw'): 'b', ('a', 'kww'): 'c', ('a', 'kwd'): 'd', ('a', 'kwe'): 'e', ('a', 'zz'): 'SPACE', ('SPACE', '\t'): 'b'}
 
 FAMILIES = {
@@ -171,10 +172,13 @@ def render(toks, kw, salt=0):
     """token names -> (text, expected [n, v] tokens)"""
     if not kw:
         return ' '.join(toks), [{'n': t, 'v': t} for t in toks]
-    lex = []
+    lex, glued = [], set()
     for i, t in enumerate(toks):
         if t == 'a':
             lex.append(('x', 'y', 'mm')[(i + salt) % 3])
+        elif t == 'b' and i and lex[i - 1] == 'mm' and (i + salt) % 2 == 0:
+            lex.append('x')
+            glued.add(i)            # written directly after the word mm: the x of mmx is not at a word boundary
         elif t == 'b':
             lex.append(('kw', '"x"', '"mm"', '"y"', '\t', '=v  w')[(i + salt) % 6])
         elif t == 'c':
@@ -189,7 +193,7 @@ def render(toks, kw, salt=0):
         if i:
             if lex[i - 1].startswith('='):
                 glue = '  \t \n'                # a rest-of-line token: blanks and a tab end its line
-            elif l == '\t' or lex[i - 1] == '\t':
+            elif l == '\t' or lex[i - 1] == '\t' or i in glued:
                 glue = ''
             else:
                 glue = (' ', ' zz ', ' ')[(i + salt) % 3]
